@@ -21,7 +21,7 @@ CONSTANTS
   IwsVals <- IwsSmall
   MfsVals <- MfsSmall
   RstCodes = {8}
-  CLs <- ClNone
+  CLs <- ClZero
   HOps = {"read", "write", "ret"}
   ReadLens = {1}
   WriteLens = {1}
